@@ -730,6 +730,13 @@ func (c *cenv) call(n *ast.CallExpr) Val {
 			}
 			k := c.coerce(c.eval(n.Args[0]), vs.Typ)
 			return termVal(boolT, sBool, fmt.Sprintf("(select %s %s)", vs.T, e.term(c.st(), k)))
+		case "ifacedecode":
+			// ifacedecode(bz): the interface value the protobuf Any codec unpacks from bz (nil when it does not decode)
+			bz := c.eval(n.Args[0])
+			t := e.term(c.st(), bz)
+			u := e.D.uf("spec_unmarshalIface", []string{sStr}, sIface, t)
+			okf := e.D.uf("spec_unmarshalIface_ok", []string{sStr}, sBool, t)
+			return Val{K: kTerm, Typ: types.NewInterfaceType(nil, nil), Sort: sIface, T: tIte(okf, u, "nilI")}
 		case "hasprefix":
 			// hasprefix(a, b): byte string a starts with b; decided by the segment algebra where it can be
 			a, b := c.eval(n.Args[0]), c.eval(n.Args[1])
@@ -797,6 +804,7 @@ func (c *cenv) call(n *ast.CallExpr) Val {
 			// the last contracted call of Callee on this path (current value if no such call happened).
 			nameV := c.eval(n.Args[0])
 			callee, _ := e.litContent(nameV.T)
+			callee = strings.ReplaceAll(callee, "dollar_", "$")
 			compID, ok := n.Args[1].(*ast.Ident)
 			if !ok {
 				return c.errf("%s: second argument must be a component name", id.Name)
@@ -828,6 +836,7 @@ func (c *cenv) call(n *ast.CallExpr) Val {
 			// callsok("Callee"): every call of Callee recorded since the last loop entry returned a nil error
 			nameV := c.eval(n.Args[0])
 			callee, _ := e.litContent(nameV.T)
+			callee = strings.ReplaceAll(callee, "dollar_", "$")
 			var cj []string
 			for i := c.markFor(callee); i < len(c.post.calls); i++ {
 				r := c.post.calls[i]
@@ -847,6 +856,7 @@ func (c *cenv) call(n *ast.CallExpr) Val {
 			// ncalls("Callee"): number of recorded calls since the last loop entry (a Go int)
 			nameV := c.eval(n.Args[0])
 			callee, _ := e.litContent(nameV.T)
+			callee = strings.ReplaceAll(callee, "dollar_", "$")
 			cnt := 0
 			for i := c.markFor(callee); i < len(c.post.calls); i++ {
 				if lastName(c.post.calls[i].Name) == callee {
@@ -858,6 +868,7 @@ func (c *cenv) call(n *ast.CallExpr) Val {
 			// callres("Callee", i): i-th result of the last recorded call of Callee on this path
 			nameV := c.eval(n.Args[0])
 			callee, _ := e.litContent(nameV.T)
+			callee = strings.ReplaceAll(callee, "dollar_", "$")
 			idx := 0
 			if len(n.Args) > 1 {
 				iv := c.eval(n.Args[1])
@@ -926,6 +937,7 @@ func (c *cenv) call(n *ast.CallExpr) Val {
 			// callarg("Callee", i [, nth]): i-th argument of the last (or nth) recorded call of Callee since the last loop entry
 			nameV := c.eval(n.Args[0])
 			callee, _ := e.litContent(nameV.T)
+			callee = strings.ReplaceAll(callee, "dollar_", "$")
 			var idx, nth int
 			fmt.Sscanf(c.eval(n.Args[1]).T, "%d", &idx)
 			if len(n.Args) > 2 {
